@@ -304,6 +304,117 @@ def trace_suite(res, seed, n):
 
 
 # --------------------------------------------------------------------------------------------
+# 1b. lookups in the converter registry against Model/RegCache.v
+# --------------------------------------------------------------------------------------------
+def regtrace_case(i_seed):
+    """2-3 threads converting to 1-3 fresh subclasses of str / int / float (first lookups), random schedule: the events of
+    TypeRegistry.resolve on the transformer registry, one model thread per call"""
+    warnings.simplefilter("ignore")
+    from utype.utils.transform import TypeTransformer, type_transform
+    from utype.utils import base as ubase
+    rng = random.Random(i_seed)
+    reg = TypeTransformer.registry
+    t = fresh_tag()
+    k = rng.randint(1, 3)
+    bases = [rng.choice(["str", "int", "float"]) for _ in range(k)]
+    dyn.declare("".join("class %sE%d(%s):\n    pass\n" % (t, i, b) for i, b in enumerate(bases)))
+    types = [dyn.get("%sE%d" % (t, i)) for i in range(k)]
+    tidx = {ty: i for i, ty in enumerate(types)}
+    convs = {}
+
+    def cidx(f):
+        return convs.setdefault(id(f), len(convs) + 1)
+    scan = []
+    for ty in types:
+        found = None
+        for detector, trans, prio in reg._registry:
+            try:
+                if detector(ty):
+                    found = trans
+                    break
+            except (TypeError, ValueError):
+                continue
+        if found is None:
+            return ("skip", None)
+        scan.append(cidx(found))
+    nth = rng.choice([2, 2, 3])
+    plans = [[rng.randrange(k) for _ in range(rng.randint(1, 2))] for _ in range(nth)]
+    samples = {"str": "a", "int": "3", "float": "1.5"}
+    thunks = [(lambda pl=pl: [repr(type_transform(samples[bases[j]], types[j])) for j in pl]) for pl in plans]
+    code = ubase.TypeRegistry.resolve.__code__
+    calls = {}           # id(frame) -> virtual thread
+    reqs = []
+
+    def on_event(frame):
+        if frame.f_code is not code or frame.f_locals.get("self") is not reg:
+            return None
+        ty = frame.f_locals.get("t")
+        if ty not in tidx:
+            return None
+        text = linecache.getline(frame.f_code.co_filename, frame.f_lineno).strip()
+        key = id(frame)
+        labs = None
+        if text.startswith("if self.cache and t in self._cache"):
+            calls[key] = len(reqs)
+            reqs.append(tidx[ty])
+            labs = ["ETest %s" % ("true" if ty in reg._cache else "false")]
+        elif text.startswith("return self._cache[t]"):
+            labs = ["EHit %d" % cidx(reg._cache[ty])] if ty in reg._cache else ["EKey"]
+        elif text.startswith("self._cache[t] = trans"):
+            labs = ["EScan %d" % cidx(frame.f_locals["trans"]), "EFill"]
+        if labs is None or key not in calls:
+            return None
+        return [(calls[key], l) for l in labs]
+    p_switch = rng.choice([0.05, 0.2, 0.5])
+
+    def choose(step, current, enabled):
+        if current is None or rng.random() < p_switch:
+            return rng.choice(enabled)
+        return current
+    r = sched.Run({code}, thunks, choose, on_event=on_event).run()
+    evs = [x for _, labs in r["events"] for x in labs]
+    ok = all(res is not None and res[0] == "ok" for res in r["results"])
+    term = "([%s], [%s], [%s])" % ("; ".join(str(c) for c in scan), "; ".join(str(q) for q in reqs),
+                                  "; ".join("(%d, %s)" % (v, l) for v, l in evs))
+    return ("case", term, dict(calls=len(reqs), events=len(evs), hits=sum(1 for _, l in evs if l.startswith("EHit")),
+                               fills=sum(1 for _, l in evs if l == "EFill"), failed=int(not ok)), r["results"])
+
+
+def regtrace_suite(res, seed, n):
+    outs = core.pool_map(regtrace_case, [seed * 1000403 + i for i in range(n)], soft=20.0, hard=90.0, nproc=max(2, core.NCPU // 2))
+    terms, agg, failed = [], {}, []
+    for o in outs:
+        if isinstance(o, tuple) and o[0] == "case":
+            terms.append(o[1])
+            for k, v in o[2].items():
+                agg[k] = agg.get(k, 0) + v
+            if o[2]["failed"]:
+                failed.append(o[3])
+    body = ("From Coq Require Import Bool Arith.\nClose Scope Z_scope. Close Scope string_scope. Open Scope nat_scope. Open Scope bool_scope.\n"
+            "Definition case_ok (c : list nat * list nat * list (nat * revent)) : bool :=\n"
+            "  let '(sc, reqs, tr) := c in raccepts (fun t => nth t sc 0) {| r_cache := []; r_ths := map RTest reqs |} tr.\n"
+            "Definition cases : list (list nat * list nat * list (nat * revent)) := [\n%s\n].\n"
+            "Goal True. idtac \"MISMATCH\". exact I. Qed.\nEval vm_compute in (bad_idx case_ok cases).\n" % ";\n".join(terms))
+    rc, out = core.coq_eval("c20reg_%d" % os.getpid(), ["Validators", "Concur", "RegCache"], body)
+    bad = core.parse_nat_list(out, "MISMATCH") if rc == 0 else None
+    if bad is None:
+        res.broken.append(dict(kind="correspondence", name="registry-trace (coqc failed)", detail=out[-1500:]))
+        bad = []
+    res.add_suite("registry-trace", len(terms), len(set(terms)), [terms[0][:300] if terms else ""],
+                  "2-3 threads making first conversions to 1-3 fresh subclasses of str / int / float under the deterministic scheduler "
+                  "(every line of TypeRegistry.resolve is a preemption point, switch probability 0.05-0.5): the events of each call on "
+                  "the transformer registry (cache test, read of a hit, scan result, fill) must be the run of Model/RegCache.v under "
+                  "the same schedule, the scan function being an independent sequential scan of the registrations",
+                  dict(mismatches=len(bad), **agg))
+    if bad:
+        res.broken.append(dict(kind="correspondence", name="registry-trace",
+                               detail="the real run is not a run of the model on %d cases; first: %s" % (len(bad), terms[bad[0]][:2000])))
+    for f in failed[:2]:
+        m = "a conversion failed under the scheduler: %r" % (f,)
+        res.violations.append(dict(case=repr(dict(kind="registry-run")), observed=m, what=m))
+
+
+# --------------------------------------------------------------------------------------------
 # 2. bounded-preemption exploration of the real code
 # --------------------------------------------------------------------------------------------
 SCENARIOS = [
@@ -422,6 +533,8 @@ def main(tier, seed):
     findings.replay_all(res, PID, {})
     if core.build(["Model/Concur.vo", "Model/Validators.vo"])["ok"]:
         trace_suite(res, seed, 150 if tier == "quick" else 3000)
+        if core.build(["Model/RegCache.vo"])["ok"]:
+            regtrace_suite(res, seed, 150 if tier == "quick" else 3000)
     explore_suite(res, seed, tier)
     return core.finish(res, "make -C coq Props/C20.vo && coqc (Print Assumptions audit)", "see suites", search=search,
                        level_note="partial: the theorems are about the first-parse protocol (lock, flag, table, cells, fields) as a transition "
